@@ -1027,8 +1027,22 @@ func (f *Frame) encodeUnOp(x *ssa.UnOp, st *State) {
 		if v.Addr == nil {
 			f.safetyObl("nil", "*"+f.srcText(x), not(eq(v.T, "nil")))
 		}
-		if _, isG := x.X.(*ssa.Global); isG {
-			f.noteGlobalRead(x.X.(*ssa.Global), x)
+		if g, isG := x.X.(*ssa.Global); isG {
+			f.noteGlobalRead(g, x)
+			// a package-level function variable that only the initialiser assigns, with a function
+			// literal: calls through it are calls of that function
+			if _, isSig := x.Type().Underlying().(*types.Signature); isSig && f.fn.Synthetic != "package initializer" {
+				if fn := e.prog.globalFuncInit(g); fn != nil {
+					name := "fn$" + keyOfFunction(fn)
+					t := e.ctx.declConst(name, sortRef)
+					if !e.ctx.declared["fninit:"+name] {
+						e.ctx.declared["fninit:"+name] = true
+						e.ctx.assert(fmt.Sprintf("(not (= %s nil))", t))
+					}
+					f.vals[x] = &Val{T: t, Typ: x.Type(), Fn: fn, ConstLen: -1}
+					return
+				}
+			}
 		}
 		f.noteRead(st, a, x)
 		term := e.load(st, a)
